@@ -597,6 +597,19 @@ def run(ctx):
     fns = sorted({COVER[k][0] for k in names if COVER[k][0] not in NOT_TRANSLATED})
     lres = link.check(ctx, "distances", {fn: ("src_%s_eq" % fn, "src_%s_eqR" % fn) if fn in ROBUST_LINK else "src_%s_eq" % fn for fn in fns},
                       NOT_TRANSLATED)
+    # capstone corollaries (coq/link/K_distances.v): the P_C12 statements restated about the translated source itself
+    caps = sorted(t for t in lres.theorems if t.startswith("C12_src_"))
+    ob = "link:distances:capstone_corollaries_present"
+    ctx.obligations.append(ob)
+    if len(caps) >= 20: ctx.discharged.append(ob)
+    else: ctx.broken.append("link[distances]: only %d capstone corollaries C12_src_* found in K_distances.v" % len(caps))
+    for t in caps:
+        ob = "link:distances:" + t
+        ctx.obligations.append(ob)
+        if lres.theorems[t] is True and all(a in link.coqrun.ALLOWED_AXIOMS or ctx._primitive(a) for a in lres.axioms.get(t, [])):
+            ctx.discharged.append(ob)
+        else:
+            ctx.broken.append("link[distances]: corollary %s (P_C12 statement about the translated source) %s" % (t, lres.theorems[t]))
     src_ready = lres.ok and not any("E_distances" in e for e in lres.errors)
     link_broken = any(b.startswith("link[") for b in ctx.broken)
     dz = srcparams.func_defaults("umap/distances.py", "symmetric_kl").get("z", 1e-11)
